@@ -209,6 +209,11 @@ theorem gnb_incremental_eq_batch_of_uniform_eps (vs : α) (p : Nat) (hist : List
     field_simp
   exact ⟨h1, by rw [h1, gnb_single_fit_is_textbook vs p hist.flatten c hc]⟩
 
+/-- the hypothesis is satisfiable with `var_smoothing > 0` and a class-incomplete batch -/
+example : ∀ b ∈ ([[([4, 0], 3), ([0, 1], 3)], [([4, 1], 7), ([0, 1], 7)]] : List (Batch Rat)),
+    gnbEps (1 / 2) 2 b = gnbEps (1 / 2) 2 [([4, 0], 3), ([0, 1], 3), ([4, 1], 7), ([0, 1], 7)] := by
+  decide +kernel
+
 /-- a history with one dominating, balanced column: both batches have epsilon `1/2 · 4`, class 3 is
 absent from the second batch -/
 example : (lookup 3 (gnbRun (1 / 2 : Rat) 2 [[([4, 0], 3), ([0, 1], 3)], [([4, 1], 7), ([0, 1], 7)]])).map gProj =
@@ -231,6 +236,9 @@ theorem gnb_var_replay_fails_with_smoothing :
 /-- counts and priors of the same history are right (the defect is confined to sigma) -/
 example : (lookup 0 (gnbRun (1 / 2 : Rat) 1 smoothingWitness)).map (fun i => (i.count, i.prior, i.theta))
     = some (4, 1, [3 / 2]) := by decide +kernel
+
+/-- stand-in transcendental functions over `Rat`, only for the examples below -/
+instance : Transc Rat := ⟨fun x => x, fun x => x, fun x => x⟩
 
 /-! ## multinomial naive Bayes -/
 
@@ -265,6 +273,9 @@ theorem mnb_replay_whole_state [Transc α] (a : α) (p : Nat) (hist : List (Batc
     (lookup c (mnbRun a p hist)).map mProj = mnbStats a p hist.flatten c :=
   mnbRun_stats a p hist c
 
+example : (lookup 7 (mnbRun (1 : Rat) 2 [[([1, 2], 7), ([0, 1], 3)], [([3, 0], 7)]])).map mProj =
+    some (2, [4, 2], mnbLogProb 1 [4, 2]) := by decide +kernel
+
 /-- hence batch-by-batch fitting and one fit on the whole data give the same class statistics -/
 theorem mnb_incremental_eq_batch [Transc α] (a : α) (p : Nat) (hist : List (Batch α)) (c : Nat) :
     (lookup c (mnbRun a p hist)).map mProj = (lookup c (mnbRun a p [hist.flatten])).map mProj := by
@@ -297,6 +308,9 @@ theorem mnb_counts_priors [Transc α] (a : α) (p : Nat) (hist : List (Batch α)
     have hp := mnbStep_prior a p (mnbRun a p h') b c i (by rw [← e]; exact h)
     rw [← e, mnbRun_total] at hp
     rw [hp, hcount]
+
+example : (lookup 7 (mnbRun (1 : Rat) 2 [[([1, 2], 7), ([0, 1], 3)], [([3, 0], 7)]])).map (fun i => (i.count, i.prior)) =
+    some (2, 2 / 3) := by decide +kernel
 
 /-! ## prediction -/
 
@@ -364,6 +378,9 @@ is at most the (r)distance to every centroid (L2, L1, L-infinity) -/
 theorem km_assigns_nearest (m : Metric) (cs : List (List α)) (x : List α) (c : List α) (hc : c ∈ cs) :
     (closestBy m cs x).2 ≤ rdistBy m c x :=
   closestBy_le m cs x c hc
+
+example : ([1, 2] : List Rat) ∈ [[0, 0], [1, 2]] ∧
+    (closestBy .l1 [[0, 0], [1, 2]] ([1, 1] : List Rat)) = (1, 1) := by decide +kernel
 
 /-- **converged is reported truthfully for every metric**: `Ok` iff the metric's distance between the
 old and the new centroid matrix is below the tolerance -/
@@ -440,7 +457,9 @@ theorem ftrl_sigmoid_clamped [Transc α] (m v : α) (hm : 0 ≤ m) :
     (m ≤ v → sigmoid m v = sigmoid m m) ∧ (v ≤ -m → sigmoid m v = sigmoid m (-m)) :=
   ⟨sigmoid_clamp_hi m v hm, sigmoid_clamp_lo m v hm⟩
 
-instance : Transc Rat := ⟨fun x => x, fun x => x, fun x => x⟩  -- only for the examples below
+example : (0 : Rat) ≤ 35 ∧ sigmoid (35 : Rat) 100 = sigmoid 35 35 ∧ sigmoid (35 : Rat) (-100) = sigmoid 35 (-35) := by
+  decide +kernel
+
 
 example : ftrlWeight (⟨1, 1, 1 / 2, 1⟩ : FtrlHp Rat) (-1 / 2) 4 = 0 := by decide +kernel
 example : ftrlWeight (⟨1, 1, 1 / 2, 1⟩ : FtrlHp Rat) (3 / 2) 4 ≠ 0 := by decide +kernel
